@@ -391,3 +391,42 @@ Example C08_raw_negative_endpoint_witness :
   end.
 Proof. exact ex_raw_negative_endpoint. Qed.
 Print Assumptions C08_raw_negative_endpoint_witness.
+
+(* ---- DbImpl level, all histories -------------------------------------------------------------
+   FULL STATEMENT: after EVERY history of queries and transactions from the empty database (failing
+   ones and their rollback included) the graph of the database is well formed (wf), i.e. every query of
+   Queries.v reaches the graph only through steps that the abstract multigraph accepts.
+
+   PROVED (C08_db_history_wf_partial; theories/HistoryAtomicProofs.v, via the joint invariant of
+   C09/C10/C11 + C13): wf (gr d) after every history of
+     HQuery q            (Db::exec / exec_mut: one query as its own transaction, rolled back when it fails)
+     HTxn qs fail_at_end (transaction_mut: the queries qs, then commit, or rollback when one of them fails or
+                          a failure is injected at the end)
+   of ALL query kinds.  Rollback is covered: every undo command reaches the graph only through
+   insert_node / insert_edge / remove_edge / remove_node with the sign of the id's kind
+   (C08_db_rollback_wf).  C08_db_query_wf: the state after any single query inside a transaction
+   (whatever its outcome) is wf.
+   MISSING for the full statement: histories containing an insert list that names a key twice
+   (`item_ok` = C09's quantifier: the proof goes through the joint invariant, whose unique-keys and
+   exact-index components are needed to know that the ids returned by index searches exist);
+   `bounded` = the capacity stays <= 2^63 (ids fit i64; beyond it the model's unbounded slot numbers
+   collide with the free-list sentinel i64::MIN, so this hypothesis is part of the model's validity). *)
+From Agdb Require Import Queries Revisions DbInvProofs QueryInvProofs AliasProofs TraversalLiveProofs DbInvariantProofs
+  RollbackInvProofs HistoryAtomicProofs.
+
+Theorem C08_db_query_wf :
+  forall d q, query_ok q -> Inv d -> wf (gr (fst (exec_in_txn rv_fixed d q))).
+Proof.
+  intros d q Hq Hd. apply (QueryInvProofs.exec_in_txn_Inv rv_fixed search_live_fixed eq_refl d q Hq Hd).
+Qed.
+Print Assumptions C08_db_query_wf.
+
+Theorem C08_db_rollback_wf :
+  forall d d', rollback rv_fixed d = ROk d' -> uok d -> wf (gr d) -> alias_bij d -> wf (gr d').
+Proof. intros d d' H Hu Hw Hb. exact (proj1 (rollback_wf_bij rv_fixed d d' H Hu Hw Hb)). Qed.
+Print Assumptions C08_db_rollback_wf.
+
+Theorem C08_db_history_wf_partial :
+  forall its, Forall item_ok its -> bounded rv_fixed db_new its -> wf (gr (run_items rv_fixed db_new its)).
+Proof. exact history_wf_fixed. Qed.
+Print Assumptions C08_db_history_wf_partial.
